@@ -36,15 +36,6 @@ ASSUMPTIONS = [
 ]
 
 
-def msg_settings(quick):
-    out = []
-    for s in H.SETTINGS:
-        if s["reg"] != "dynamic":
-            continue
-        out.append(s)
-    return out
-
-
 def expected_alg(case, path_kind, variant=None):
     """What the RP is configured to expect (independent of how the code looks it up)."""
     cfg = case["cfg"]
@@ -73,7 +64,7 @@ def judge(ctx, case, accepted, verified, sent_nonce, path_kind, variant=None, re
             sig = "static-registration-sigalg-not-enforced-" + how
         elif clause in ("c_hash", "at_hash") and tok["alg"] == "none":
             sig = "unsigned-idtoken-hash-not-checked"
-        elif clause == "nonce" and path_kind == "msg" and "nonce" not in tok["claims"]:
+        elif clause == "nonce" and path_kind == "msg" and tok["claims"].get("nonce") in (None, "", [], [""], [None]):
             sig = "msgapi-nonce-claim-absent-accepted"
         else:
             sig = "accepted-invalid:" + clause
@@ -94,12 +85,14 @@ def deliveries(path):
     return ("alone",)
 
 
-def run_msg(ctx, clock, settings, faults_by_path, variants):
+def run_msg(ctx, clock, settings, faults_by_path, variants, pick=None):
     cases = []
     for path in ("msg_authz", "msg_token"):
         for setting in settings:
             for delivery in deliveries(path):
                 for fname, ffn in [("none", None)] + faults_by_path[path]:
+                    if pick is not None and not pick(setting, path, delivery, fname):
+                        continue
                     for variant in variants(fname):
                         case = H.make_case(path, setting, delivery, fname, ffn)
                         out, term, kw = H.run_msg_case(case, variant, clock)
@@ -192,6 +185,18 @@ def count_unmodelled(ctx, imports, ctype, checker, cases, label):
     ctx.count("unmodelled-by-model:" + label, n)
 
 
+CORE_PREFIXES = ("alg:", "key:", "kid:", "sig:", "exp:boundary", "exp:before", "iat:", "nonce:", "claim-removed:",
+                 "c_hash", "at_hash", "hash:", "iss:", "aud:", "azp:", "forged", "token-of", "resp-")
+
+
+def is_core(fname):
+    return fname == "none" or fname.startswith(CORE_PREFIXES)
+
+
+def only(faults, pred):
+    return {p: [(n, f) for n, f in fl if pred(n)] for p, fl in faults.items()}
+
+
 def run(ctx):
     import logging
     logging.disable(logging.CRITICAL)
@@ -200,47 +205,62 @@ def run(ctx):
     clock = srv.Clock(H.T0).install()
     rng = ctx.rng
     faults = {p: H.fault_matrix(p) for p in H.PATHS}
-    # ---- message API: the whole matrix under every setting (variant 'full'); the other kwargs variants on
-    #      the principal settings
-    principal = [s for s in H.SETTINGS if s["reg"] == "dynamic" and not s["allow_missing_kid"] and s["skew"] == 0]
-    msettings = msg_settings(ctx.quick)
-    if ctx.quick:
-        msettings = [s for s in msettings if (s["skew"] == 0) == (not s["allow_missing_kid"])]
+    core = only(faults, is_core)
+    dyn = [s for s in H.SETTINGS if s["reg"] == "dynamic"]
+    principal = [s for s in dyn if not s["allow_missing_kid"] and s["skew"] == 0 and not s["allow_none"]]
+    coupled = [s for s in H.SETTINGS if (s["skew"] == 0) == (not s["allow_missing_kid"])]
 
-    def variants(fname):
+    def full(fname):
         return ("full",)
-    msg_cases = run_msg(ctx, clock, msettings, faults, variants)
 
-    def variants2(fname):
+    def others(fname):
         return ("no-nonce", "no-iss", "no-client_id", "allowed_sign_alg")
-    few = [s for s in principal if not s["allow_none"]]
-    msg_cases += run_msg(ctx, clock, few if ctx.quick else principal, faults, variants2)
-    # ---- service path
-    ssettings = H.SETTINGS if not ctx.quick else [s for s in H.SETTINGS
-                                                    if (s["skew"] == 0) == (not s["allow_missing_kid"])]
 
-    def pick(setting, path, delivery, fname):
-        if not ctx.quick:
-            return True
-        # quick tier: the whole matrix with the principal delivery; the other deliveries with the faults that
-        # depend on the delivery
-        if delivery in ("code", "alone") and (path == "svc_token" or delivery == "code"):
+    def main_delivery(setting, path, delivery, fname):
+        # the whole matrix with the principal delivery; the other deliveries with the faults that depend on it
+        if delivery in ("code", "alone"):
             return True
         return fname == "none" or fname.startswith(("alg:none", "c_hash", "at_hash", "hash", "claim-removed:c_hash",
-                                                    "claim-removed:at_hash", "claim-retyped:c_hash", "claim-retyped:at_hash"))
-    traces = run_svc(ctx, clock, ssettings, faults, pick)
+                                                    "claim-removed:at_hash", "claim-retyped:c_hash",
+                                                    "claim-retyped:at_hash"))
+    msg_cases, traces = [], []
+    if ctx.quick:
+        header = lambda n: n == "none" or n.startswith(("alg:", "key:", "kid:", "sig:"))  # noqa: E731
+        # ---- message API: the whole matrix under the five expected-alg settings, the core matrix under
+        #      allow-none / skew 10 / allow_missing_kid, the other kwargs variants on one setting
+        msg_cases += run_msg(ctx, clock, principal, faults, full, main_delivery)
+        rest = [s for s in coupled if s["reg"] == "dynamic" and s not in principal]
+        msg_cases += run_msg(ctx, clock, rest, core, full, main_delivery)
+        msg_cases += run_msg(ctx, clock, principal[:1], core, others, main_delivery)
+        # ---- service path: the whole matrix under two settings, the core matrix under eight more, the
+        #      header faults under every static setting
+        def sel(reg, sigalg, an=False, sk=0):
+            return [s for s in coupled if s["reg"] == reg and s["sigalg"] == sigalg and s["allow_none"] == an
+                    and s["skew"] == sk]
+        whole = sel("dynamic", "RS256") + sel("static", None)
+        traces += run_svc(ctx, clock, whole, faults, main_delivery)
+        mid = (sel("dynamic", None) + sel("dynamic", "ES256") + sel("dynamic", "HS256") + sel("dynamic", "none")
+               + sel("dynamic", "RS256", an=True) + sel("dynamic", "RS256", sk=10) + sel("dynamic", None, an=True, sk=10))
+        traces += run_svc(ctx, clock, mid, core, main_delivery)
+        stat = [s for s in coupled if s["reg"] == "static" and s not in whole and not s["allow_none"] and s["skew"] == 0]
+        traces += run_svc(ctx, clock, stat, only(faults, header), main_delivery)
+    else:
+        everything = lambda s, p, d, f: True  # noqa: E731
+        msg_cases += run_msg(ctx, clock, dyn, faults, full, everything)
+        msg_cases += run_msg(ctx, clock, principal + [s for s in dyn if s["allow_none"] and s["skew"] == 0
+                                                      and not s["allow_missing_kid"]], faults, others, everything)
+        traces += run_svc(ctx, clock, H.SETTINGS, faults, everything)
     # ---- random fault pairs
-    npairs = 150 if ctx.quick else 3000
+    npairs = 120 if ctx.quick else 3000
     pair_faults = {p: random_pairs(rng, faults[p], npairs) for p in H.PATHS}
-    some = [rng.choice(principal) for _ in range(3 if ctx.quick else 12)]
-    msg_cases += run_msg(ctx, clock, some[:2], pair_faults, variants)
-    traces += run_svc(ctx, clock, some[:1] if ctx.quick else some, pair_faults,
-                      lambda s, p, d, f: d in ("code", "alone") or not ctx.quick)
+    some = [rng.choice(coupled) for _ in range(2 if ctx.quick else 12)]
+    msg_cases += run_msg(ctx, clock, [dict(s, reg="dynamic") for s in some], pair_faults, full, main_delivery)
+    traces += run_svc(ctx, clock, some[:1] if ctx.quick else some, pair_faults, main_delivery)
     clock.uninstall()
     H.check_cases(ctx, H.RESP_IMPORTS, H.RESP_TYPE, "chk_resp_case", msg_cases, shard=400, label="msg",
-                        diag="run_resp_case")
-    H.check_cases(ctx, H.TRACE_IMPORTS, H.TRACE_TYPE, "chk_trace", traces, shard=120, label="svc",
-                        diag="first_bad_step")
+                  diag="run_resp_case")
+    H.check_cases(ctx, H.TRACE_IMPORTS, H.TRACE_TYPE, "chk_trace", traces, shard=150, label="svc",
+                  diag="first_bad_step")
     if not ctx.quick:
         count_unmodelled(ctx, H.RESP_IMPORTS, H.RESP_TYPE, "unmodelled_resp_case", msg_cases, "msg")
         count_unmodelled(ctx, H.TRACE_IMPORTS, H.TRACE_TYPE, "chk_modelled", traces, "svc")
